@@ -14,8 +14,8 @@ CLAIMED["C09"]=dict(
    note="moderate nesting fixed as <= 64 generated levels on an 8 MiB stack; watchdog time-outs are inconclusive",
    ref="6 C09")
 CLAIMED["C01"]=dict(
-   technique="property-based testing against a reference interpreter: proptest/tape-driven type-directed program generator, independent big-step evaluator as oracle, values read back guided by their type",
-   text="Exploration: 8k (quick) / 200k (thorough) generated well-typed terminating programs over closures, partial/over-application, rec groups, records (>4 fields, update, projection), tuples, variants, arrays, nested/literal/as patterns, short-circuit operators, failures and host calls, printed in random legal styles and run with optimisation on and off; outcome and host-call log compared with the reference interpreter.",
+   technique="property-based testing against a reference interpreter: exhaustive enumeration of small well-typed terms + proptest/tape-driven type-directed program generator, independent big-step evaluator as oracle, values read back guided by their type",
+   text="Exhaustive core: every well-typed closed term of <= 6 (quick: 13 082 terms) / <= 7 (thorough: 94 849) nodes over a reduced grammar (literals, variables, let at 7 types, lambda, application incl. partial/over-application, tuple/record construction and projection, Some, match on Option, if, #Int+, #Int<, error), each with optimisation on and off. Exploration: 8k (quick) / 200k (thorough) generated well-typed terminating programs over closures, partial/over-application, rec groups, records (>4 fields, update, projection), tuples, variants, arrays, nested/literal/as patterns, short-circuit operators, failures and host calls, printed in random legal styles and run with optimisation on and off; outcome and host-call log compared with the reference interpreter.",
    note="oracle = harness interpreter (strict CBV, left-to-right); do/seq and implicit-argument dispatch beyond the prelude operators are not generated yet; programs the front end rejects are counted inconclusive",
    ref="6 C01")
 CLAIMED["C04"]=dict(
